@@ -36,7 +36,7 @@ MANIFEST = dict(
          "vbi_bit_slice / vbi3_bit_slicer_slice on every transmitted line.",
     note="The waveform/numeric clause (threshold, phase, interpolation) is decided by the replay on a sampled grid, not by TLC: "
          "rates 13.5, 14.32, 17.73, 27, 35.47 MHz + seeded random rates in between (+ 2.5-4.9 MHz, caption only), "
-         "25 pixel formats, sequential/interlaced, offsets min/nominal/max/random inside the line; the continuous "
+         "the 23 pixel formats of VBI_PIXFMT_SET_ALL, sequential/interlaced, offsets min/nominal/max/random inside the line; the continuous "
          "space between grid points is sampled, never exhausted. TLC decides the combinatorial clause for bounded histories "
          "(4 transitions quick / 6 thorough in MC, 10 in random walks), <= 5 rows per frame in MC, 17 in walks. The service table is transcribed and compared with the "
          "library's at run time. VBI_SLICED_2xCAPTION_525 has no reference transmitter (requested, never carried).",
@@ -106,7 +106,15 @@ def payload(rnd, wave, used=None):
         b = [rnd.randrange(256) for _ in range(n)]
     if nbits & 7:
         b[-1] &= (1 << (nbits & 7)) - 1
-    return "".join("%02x" % x for x in b)
+    p = "".join("%02x" % x for x in b)
+    while used is not None and (wave, p) in used:         # e.g. two caption rows: the only "long run" of 16 bits is 00ff
+        b = [rnd.randrange(256) for _ in range(n)]
+        if nbits & 7:
+            b[-1] &= (1 << (nbits & 7)) - 1
+        p = "".join("%02x" % x for x in b)
+    if used is not None:
+        used.add((wave, p))
+    return p
 
 
 def offsets(rnd, rate, spl, waves, mode):
@@ -238,13 +246,22 @@ def align(e, recs, gr):
         return [j for j in range(lo, hi) if rows[j] not in got]
     # the driver sliced every row on its own with the record's service: rows that give exactly this record (org), then rows
     # that this service's slicer accepts at all (acc); a record with a single candidate between its neighbours is settled
+    def candidates(x, field, win):
+        if field == "org":
+            return [j for j in win if rows[j] in x.get("org", [])]
+        # rows the record's service accepts, closest bytes first: only a clear winner counts (less than half of the bytes differ)
+        acc = sorted((d, r) for r, d in x.get("acc", []) if r in [rows[j] for j in win])
+        half = len(x["data"]) // 4
+        if acc and acc[0][0] <= half and (len(acc) == 1 or acc[1][0] > half):
+            return [rows.index(acc[0][1])]
+        return []
     for field in ("org", "acc"):
         changed = True
         while changed:
             changed = False
             for i, x in enumerate(gr):
                 if pos[i] is None:
-                    c = [j for j in window(i) if rows[j] in x.get(field, [])]
+                    c = candidates(x, field, window(i))
                     if len(c) == 1:
                         pos[i], got[rows[c[0]]], changed = c[0], x, True
     pv = e["prev"]
